@@ -11,6 +11,10 @@
 #include <AIToolbox/Factored/Utils/FactorGraph.hpp>
 #include <AIToolbox/Utils/Core.hpp>
 #include <AIToolbox/Utils/Combinatorics.hpp>
+#include <AIToolbox/Utils/Polytope.hpp>
+#include <unistd.h>
+#include <fcntl.h>
+#include <sys/wait.h>
 
 using namespace verif;
 namespace F = AIToolbox::Factored;
@@ -272,6 +276,38 @@ static void choose_case(Rng & rng, bool exhaustive) {
     Line d; d << "C10" << "choose" << (st + ba - 1) << ba << "|" << AIToolbox::nonZeroBallsBins(st + ba, ba + 1); d.emit();
     stat("choose_random");
 }
+// A call that may be undefined behaviour on the tree as found runs in a forked child (stderr/stdout to /dev/null): the parent reports
+// `C10 guard <component> <clause> | <1 = child returned 0 / 0 = child died or returned non-zero>` and carries on.
+template <class Fn>
+static void guarded(const char * comp, const char * clause, Fn fn) {
+    std::fflush(stdout); std::fflush(stderr);
+    const pid_t pid = fork();
+    if (pid == 0) {
+        const int dn = open("/dev/null", O_WRONLY);
+        if (dn >= 0) { dup2(dn, 2); dup2(dn, 1); }
+        alarm(20);
+        _exit(fn() ? 0 : 1);
+    }
+    int st = 0; bool ok = false;
+    if (pid > 0 && waitpid(pid, &st, 0) == pid) ok = WIFEXITED(st) && WEXITSTATUS(st) == 0;
+    Line l; l << "C10" << "guard" << comp << clause << "|" << ok; l.emit();
+}
+// findVerticesNaive over ONE-dimensional planes (a one-state belief space): S - 1 = 0 planes are chosen per vertex, so the enumerator is
+// built with zero elements and `isValid()` calls `back()` on an empty vector. The only belief is a corner of the simplex, which the
+// function documents it does not report: the answer must be an empty list.
+static void naive_one_dimensional_case(Rng & rng) {
+    const size_t nNew = 1 + rng.below(2), nOld = 1 + rng.below(3);
+    std::vector<double> vals; for (size_t i = 0; i < nNew + nOld; ++i) vals.push_back(0.25 * (double)rng.range(-8, 8));
+    guarded("findVerticesNaive", "one_dimensional_planes", [&] {
+        std::vector<AIToolbox::Vector> news, olds;
+        for (size_t i = 0; i < nNew; ++i) { AIToolbox::Vector v(1); v[0] = vals[i]; news.push_back(v); }
+        for (size_t i = 0; i < nOld; ++i) { AIToolbox::Vector v(1); v[0] = vals[nNew + i]; olds.push_back(v); }
+        const auto r = AIToolbox::findVerticesNaive(news.begin(), news.end(), olds.begin(), olds.end());
+        return r.first.empty() && r.second.empty();
+    });
+    stat("naive_one_dimensional");
+}
+
 // FactorGraph history: getFactor (new / existing key sets, sorted, mixed widths, non-prefix) and erase in random order; after every
 // call the neighbour lists of ALL variables and the live factors are printed (Lean: FGCursor.step, theorem fg_history_safe).
 static void fg_history_case(Rng & rng) {
@@ -315,9 +351,10 @@ static long n_util(const std::string & tier) { return (long)g_subsetShapes.size(
 static void util_case(Rng & rng, long u) {
     if (u < (long)g_subsetShapes.size()) { auto [n, k, lo] = g_subsetShapes[u]; subset_case(k, lo, lo + n); return; }
     u -= (long)g_subsetShapes.size();
-    if (u == 0) { choose_case(rng, true); return; }
+    if (u == 0) { choose_case(rng, true); naive_one_dimensional_case(rng); return; }
     union_case(rng); contains_case(rng); veccmp_case(rng); fg_history_case(rng);
     if (u % 3 == 0) choose_case(rng, false);
+    if (u % 25 == 1) naive_one_dimensional_case(rng);
     if (u % 10 == 0) { size_t n = 8 + rng.below(3), k = 1 + rng.below(n), lo = rng.below(5); subset_case(k, lo, lo + n); }
 }
 
